@@ -6,6 +6,7 @@
 import XotModel.Driver.Entity
 import XotModel.Driver.Tree
 import XotModel.Driver.Forest
+import XotModel.Driver.Fclone
 
 open XotModel.Driver
 
@@ -23,7 +24,7 @@ structure MState where
 def dispatchAll (st : MState) (line : String) : MState × String :=
   match words line with
   | "forest" :: rest =>
-    (match handleForest st.forest rest with
+    (match (handleFclone st.d.env st.forest rest).orElse (fun _ => handleForest st.forest rest) with
      | some (fs, resp) => ({ st with forest := fs }, resp)
      | none => (st, "bad-request"))
   | _ =>
